@@ -79,6 +79,40 @@ def make_pm_run(p1_out, p2_out, cross):
     return run
 
 
+def run_pm_unbounded(ctx):
+    """Equilibrium without a finite (R,Z) box (TORPEX field from coils: Rmin..Zmax = -+inf): the
+    parity rays must still start at a finite point (F21: they started at (nan, nan), no crossing
+    was ever found, the mask was 0 everywhere) -- the centre of the wall's bounding box."""
+    from hypnotoad.core import mesh as M
+
+    r = mk.skeleton_region(True)
+    r.nx = r.ny = 1
+    r.Rxy = mk.sym_mla(ctx, "R", mk.LOCS4, shared=False)
+    r.Zxy = mk.sym_mla(ctx, "Z", mk.LOCS4, shared=False)
+    inf = float("inf")
+    wall = numpy.array([[1.0, -0.5], [2.0, -0.25], [2.5, 0.75], [1.5, 1.5], [1.0, -0.5]])
+    eq = types.SimpleNamespace(Rmax=inf, Rmin=-inf, Zmax=inf, Zmin=-inf, closed_wallarray=wall)
+    calls = []
+
+    def fi(w, a, b):
+        calls.append((w, a, b))
+        if isinstance(a.R, Sym):
+            return None
+        return numpy.array([[0.0, 0.0]], dtype=object)
+
+    with patched((M, "find_intersections", fi)):
+        M.MeshRegion.calcPenaltyMask(r, eq)
+    pm = r.penalty_mask[0, 0]
+    with spec_mode():
+        starts = [c[1] for c in calls[:2]]
+        fin = all(isinstance(p.R, (int, float)) and isinstance(p.Z, (int, float)) and abs(p.R) < 1e300 and abs(p.Z) < 1e300 and p.R == p.R and p.Z == p.Z for p in starts)
+        ctx.oblige(TRUE(len(starts) == 2 and fin), "unbounded equilibrium box: the parity rays start at a finite point (not nan/inf)")
+        ctx.oblige(TRUE(fin and all(p.R == 1.75 and p.Z == 0.5 for p in starts)), "unbounded equilibrium box: ... the centre of the wall's bounding box")
+        ctx.oblige(TRUE(all(c[0] is wall for c in calls)), "crossings are counted against the closed wall")
+        ctx.oblige(pm == 1, "both y-faces outside (odd crossing count) -> 1")
+    return r
+
+
 def wall_block():
     from hypnotoad.cases import tokamak as T
 
@@ -299,7 +333,7 @@ def build(S):
     find_intersection_choice(S)
     S.under_contract("hypnotoad.core.mesh:_find_intersection")
     S.under_contract(FN_ADD, FN_PM, FN_INIT, "hypnotoad.core.equilibrium:Equilibrium.__init__", "hypnotoad.utils.polygons:clockwise")
-    S.assume("ASSUMED, not established by the code: the centre of the (Rmin,Rmax)x(Zmin,Zmax) box lies inside the wall, so that crossing parity from it decides inside/outside")
+    S.assume("ASSUMED, not established by the code: the centre of the (Rmin,Rmax)x(Zmin,Zmax) box (of the wall's bounding box when that box is unbounded) lies inside the wall, so that crossing parity from it decides inside/outside")
     S.assume("addPointAtWallToContours: _find_intersection is replaced by its result (wall point on a given segment; C20 wallIntersection + C01 refinement); precondition: the two wall points of one contour are at least wall_point_exclude_radius apart; contourSfunc / totalDistance are stubs")
     S.assume("crossing parity is taken from find_intersections (contract C20); a ray through a wall vertex counts two rows (C20 shared-vertex clause)")
     S.extraction.append(dict(function="TokamakEquilibrium.__init__", sliced="statements from `if wall is None:` to `self.wall = [...]`; Equilibrium.__init__: the two closed_wall assignments"))
@@ -308,6 +342,7 @@ def build(S):
             for p2 in (False, True):
                 for cross in ((None, "pt") if p1 != p2 else ("pt",)):
                     S.contract("calcPenaltyMask[p1_out=%s,p2_out=%s,crossing=%s]" % (p1, p2, cross), FN_PM, make_pm_run(p1, p2, cross), shape="nx=ny=1")
+        S.contract("calcPenaltyMask[unbounded equilibrium box]", FN_PM, run_pm_unbounded, shape="nx=ny=1, 4-vertex wall")
         for n in (3, 4, 5):
             S.contract("wall-normalisation[n=%d]" % n, FN_INIT, make_wall_run(n), expected_exceptions=(), shape="n=%d vertices" % n)
         for lw, uw, li, ui in ((True, False, 0, -2), (True, False, 1, -2), (False, True, 0, 2), (False, True, 0, -2), (True, True, 0, 3), (True, True, 1, -2), (True, True, 1, 2)):
@@ -321,5 +356,5 @@ def post(S):
     cfgs = None
     if S.tier == "quick":
         P = dict(fpol="profile", pressure=True)
-        cfgs = gridrun.quick_set()[:3] + [gb.cfg("lsn", dict(orthogonal=True), wall="box_cw", label="lsn-orth-clockwise-wall", **P)]
+        cfgs = gridrun.quick_set()[:3] + [gb.cfg("lsn", dict(orthogonal=True), wall="box_cw", label="lsn-orth-clockwise-wall", **P), gridrun.TORPEX]
     gridrun.run(S, ["targets_on_wall", "penalty_mask_vs_geometry", "cells_inside_wall"], FN_PM, cfgs=cfgs, name="targets / penalty mask / wall on generated grids")
